@@ -206,6 +206,8 @@ class PrintingStringIO(StringIO):
         return super().flush()
 
     def writelines(self, lines):
+        # An iterator can only be consumed once, and both streams need the lines
+        lines = list(lines)
         self._original_stdout.writelines(lines)
         return super().writelines(lines)
 
